@@ -80,7 +80,9 @@ def check_program(ctx, name, prog, vm='mbuff', helpers=(), props=('C04',), extra
     pr = ctx.pr; S = ctx.I.S; cands = []
     r = compile_clif(ctx, prog, vm, helpers)
     if r.get('status') != 'ok':
-        pr.out['errors'].append(f'{name}: cranelift_compile failed on a verifier-accepted program without local calls: {r.get("status")} {r.get("msg")}'); return cands
+        # a native observation: accepted by the verifier, no local call, every helper it calls registered - and Cranelift refuses or panics
+        cands = [dict(role=f'{role}/compile-refused', detail=f'cranelift_compile fails on the verifier-accepted program {name} (helpers registered: {[h[0] for h in helpers]}): {r.get("status")} {str(r.get("msg"))[:160]}', model=None, prog=prog.hex(), vm=vm, helpers=[list(h) for h in helpers], friendly=True)]
+        return cands
     try:
         C = clifsym.Clif(r['clif'], ctx.timeout_ms)
     except clifsym.Unparsable as e:
